@@ -321,3 +321,607 @@ Proof.
     + simpl. exact Hobs.
     + simpl. eapply IH; eauto.
 Qed.
+
+(* ------------------------------------------------------------------ copy_row: shape of the result *)
+Definition heap_wf (h : heap) : Prop :=
+  forall l, l < length h -> forall p, In p (ptrs (get h l)) -> p < length h.
+
+Lemma heap_wfb_sound : forall h, heap_wfb h = true -> heap_wf h.
+Proof.
+  intros h H l Hl p Hp. unfold heap_wfb in H. rewrite forallb_forall in H.
+  specialize (H _ (nth_In h CFree Hl)). rewrite forallb_forall in H. apply Nat.ltb_lt. apply H. exact Hp.
+Qed.
+
+Lemma ranked_wf : forall h, ranked h -> heap_wf h.
+Proof. intros h Hr l Hl p Hp. apply (Hr l Hl p Hp). Qed.
+
+Lemma nth_app_at : forall A (l1 l2 : list A) k j d, length l1 = k -> nth (k + j) (l1 ++ l2) d = nth j l2 d.
+Proof. intros A l1 l2 k j d <-. apply app_nth2_plus. Qed.
+
+Lemma get_segs : forall h hd A AD Bc BD n m,
+  length hd = 7 -> length A = n -> length AD = n -> length Bc = m -> length BD = m ->
+  (forall k, k < 7 -> get (h ++ hd ++ A ++ AD ++ Bc ++ BD) (length h + k) = nth k hd CFree) /\
+  (forall j, j < n -> get (h ++ hd ++ A ++ AD ++ Bc ++ BD) (length h + 7 + j) = nth j A CFree) /\
+  (forall j, j < n -> get (h ++ hd ++ A ++ AD ++ Bc ++ BD) (length h + 7 + n + j) = nth j AD CFree) /\
+  (forall j, j < m -> get (h ++ hd ++ A ++ AD ++ Bc ++ BD) (length h + 7 + n + n + j) = nth j Bc CFree) /\
+  (forall j, j < m -> get (h ++ hd ++ A ++ AD ++ Bc ++ BD) (length h + 7 + n + n + m + j) = nth j BD CFree).
+Proof.
+  intros h hd A AD Bc BD n m Hhd HA HAD HBc HBD. repeat split; intros j Hj.
+  - rewrite get_app_new. apply app_nth1. lia.
+  - replace (length h + 7 + j) with (length h + (7 + j)) by lia. rewrite get_app_new.
+    rewrite (nth_app_at _ hd) by auto. apply app_nth1. lia.
+  - replace (length h + 7 + n + j) with (length h + (7 + (n + j))) by lia. rewrite get_app_new.
+    rewrite (nth_app_at _ hd) by auto. rewrite (nth_app_at _ A) by auto. apply app_nth1. lia.
+  - replace (length h + 7 + n + n + j) with (length h + (7 + (n + (n + j)))) by lia. rewrite get_app_new.
+    rewrite (nth_app_at _ hd) by auto. rewrite (nth_app_at _ A) by auto. rewrite (nth_app_at _ AD) by auto.
+    apply app_nth1. lia.
+  - replace (length h + 7 + n + n + m + j) with (length h + (7 + (n + (n + (m + j))))) by lia. rewrite get_app_new.
+    rewrite (nth_app_at _ hd) by auto. rewrite (nth_app_at _ A) by auto. rewrite (nth_app_at _ AD) by auto.
+    rewrite (nth_app_at _ Bc) by auto. reflexivity.
+Qed.
+
+(* the result of a copy, spelled out *)
+Record parts := mk_parts { p_cls : Z; p_sc : list Z; p_al : loc; p_bl : option loc; p_co : option loc;
+                           p_ch : option loc; p_we : option loc; p_at : loc }.
+Definition p_atoms (h : heap) (P : parts) : list loc := items_of h (p_al P).
+Definition p_bonds (h : heap) (P : parts) : list loc := match p_bl P with Some l => items_of h l | None => [] end.
+Definition p_n h P := length (p_atoms h P).
+Definition p_m h P := length (p_bonds h P).
+Definition p_root (r : row) (g : given) (d : Z) (h : heap) (P : parts) : cell :=
+  let base := length h in
+  CMol d (if r_scal r then p_sc P else g_scal g) (alist_loc_of r (p_al P) base) (blist_loc_of r (p_bl P) base)
+       (arr_loc (r_coords r) (p_co P) (base + 3)) (arr_loc (r_charges r) (p_ch P) (base + 4))
+       (arr_loc (r_weights r) (p_we P) (base + 5)) (dict_loc (r_attrib r) (p_at P) (base + 6)).
+Definition p_hd (r : row) (g : given) (d : Z) (h : heap) (P : parts) : list cell :=
+  let base := length h in
+  [p_root r g d h P;
+   alist_cell_of r (new_atoms_of r (base + 7) (p_atoms h P));
+   blist_cell_of r (p_bl P) (new_bonds_of (brow_of r) (base + 7 + p_n h P + p_n h P) (p_bonds h P));
+   arr_cell h (r_coords r) (p_co P) (g_coords g); arr_cell h (r_charges r) (p_ch P) (g_charges g);
+   arr_cell h (r_weights r) (p_we P) (g_weights g); dict_cell h (r_attrib r) (p_at P)].
+Definition p_A r h P := atom_cells r h (length h) (length h + 7 + p_n h P) (p_atoms h P).
+Definition p_AD r h P := adict_cells r h (p_atoms h P).
+Definition p_Bc r h P :=
+  bond_cells (brow_of r) h (length h) (length h + 7 + p_n h P + p_n h P + p_m h P) (p_atoms h P)
+             (new_atoms_of r (length h + 7) (p_atoms h P)) (p_bonds h P).
+Definition p_BD r h P := bdict_cells (brow_of r) h (p_bonds h P).
+
+Lemma copy_row_inv : forall r g d h o h' o',
+  copy_row r g d h o = Some (h', o') ->
+  exists P, get h o = CMol (p_cls P) (p_sc P) (p_al P) (p_bl P) (p_co P) (p_ch P) (p_we P) (p_at P)
+    /\ o' = length h
+    /\ (b_ends (brow_of r) = ERemap -> ends_found h (p_atoms h P) (p_bonds h P) = true)
+    /\ h' = h ++ p_hd r g d h P ++ p_A r h P ++ p_AD r h P ++ p_Bc r h P ++ p_BD r h P.
+Proof.
+  intros r g d h o h' o' H. unfold copy_row in H.
+  destruct (get h o) as [| | | | | |cls sc al bl co ch we at_] eqn:Eo; try discriminate.
+  exists (mk_parts cls sc al bl co ch we at_). cbv zeta in H.
+  destruct (b_ends (brow_of r)) eqn:Ee.
+  - destruct (ends_found h (items_of h al) match bl with Some l => items_of h l | None => [] end) eqn:Ef;
+      simpl in H; [|discriminate].
+    inversion H; subst. repeat split; auto.
+  - inversion H; subst. repeat split; auto. discriminate.
+  - inversion H; subst. repeat split; auto. discriminate.
+Qed.
+
+Lemma p_lengths : forall r g d h P,
+  length (p_hd r g d h P) = 7 /\ length (p_A r h P) = p_n h P /\ length (p_AD r h P) = p_n h P
+  /\ length (p_Bc r h P) = p_m h P /\ length (p_BD r h P) = p_m h P.
+Proof.
+  intros. unfold p_A, p_AD, p_Bc, p_BD, atom_cells, adict_cells, bond_cells, bdict_cells, p_n, p_m.
+  rewrite !length_mapi. auto.
+Qed.
+
+(* ------------------------------------------------------------------ copy_row: independence *)
+Lemma st_copied_eq : forall s, st_copied s = true -> s = Copied.
+Proof. destruct s; simpl; congruence. Qed.
+Lemma dict_loc_fresh : forall s a f, st_fresh s = true -> dict_loc s a f = f.
+Proof. destruct s; simpl; congruence. Qed.
+Lemma arr_loc_fresh : forall s src f p, ast_fresh s = true -> In p (olist (arr_loc s src f)) -> p = f.
+Proof. destruct s; simpl; try congruence; intros [x|] f p _ H; simpl in H; intuition. Qed.
+Lemma arr_cell_ptrs : forall h s src g, ptrs (arr_cell h s src g) = [].
+Proof. intros h s src g. unfold arr_cell. destruct s; auto. destruct (oarr h src); auto. Qed.
+Lemma dict_cell_ptrs : forall h s src, ptrs (dict_cell h s src) = [].
+Proof. intros h s src. unfold dict_cell. destruct s; auto. destruct (dict_of h src); auto. Qed.
+
+Lemma row_indep_inv : forall r, row_indep r = true ->
+  r_alist r = Copied /\ r_atom r = Copied /\ st_fresh (r_aattrib r) = true
+  /\ match r_bonds r with
+     | None => True
+     | Some b => b_list b = Copied /\ b_obj b = Copied /\ st_fresh (b_attrib b) = true /\ b_ends b = ERemap
+     end
+  /\ ast_fresh (r_coords r) = true /\ ast_fresh (r_charges r) = true /\ ast_fresh (r_weights r) = true
+  /\ st_fresh (r_attrib r) = true.
+Proof.
+  intros r H. unfold row_indep in H. repeat (apply andb_true_iff in H; destruct H as [H ?]).
+  repeat split; auto using st_copied_eq.
+  destruct (r_bonds r) as [b|]; auto.
+  match goal with Hb : _ && _ = true |- _ => rename Hb into HB end.
+  repeat (apply andb_true_iff in HB; destruct HB as [HB ?]).
+  repeat split; auto using st_copied_eq. destruct (b_ends b); auto; discriminate.
+Qed.
+
+Lemma in_new_atoms : forall A (l : list A) b p, In p (mapi_from (fun j _ => b + j) 0 l) -> b <= p < b + length l.
+Proof.
+  intros A l b p H. apply In_mapi in H. destruct H as [j [x [Hj [_ ->]]]]. lia.
+Qed.
+
+Lemma ends_found_In : forall h atoms bonds b a1 a2 p d par,
+  ends_found h atoms bonds = true -> In b bonds -> get h b = CBond a1 a2 p d par ->
+  exists i1 i2, index_of a1 atoms = Some i1 /\ index_of a2 atoms = Some i2.
+Proof.
+  intros h atoms bonds b a1 a2 p d par H Hin Hb. unfold ends_found in H. rewrite forallb_forall in H.
+  specialize (H b Hin). rewrite Hb in H.
+  destruct (index_of a1 atoms) as [i1|]; [|discriminate].
+  destruct (index_of a2 atoms) as [i2|]; [|discriminate]. eauto.
+Qed.
+
+Lemma remap_copied : forall atoms b a i,
+  index_of a atoms = Some i ->
+  remap ERemap atoms (mapi_from (fun j _ => b + j) 0 atoms) a = b + i.
+Proof.
+  intros atoms b a i H. unfold remap. rewrite H.
+  rewrite nth_mapi with (d' := 0) by (eapply index_of_lt; eauto). simpl. reflexivity.
+Qed.
+
+Lemma news_fresh : forall r g d h P, row_indep r = true ->
+  (b_ends (brow_of r) = ERemap -> ends_found h (p_atoms h P) (p_bonds h P) = true) ->
+  forall c, In c (p_hd r g d h P ++ p_A r h P ++ p_AD r h P ++ p_Bc r h P ++ p_BD r h P) ->
+  forall p, In p (ptrs c) ->
+    length h <= p < length h + (7 + p_n h P + p_n h P + p_m h P + p_m h P).
+Proof.
+  intros r g d h P Hind Hends c Hc p Hp.
+  destruct (row_indep_inv r Hind) as [Hal [Hat [Haa [Hb [Hco [Hch [Hwe Hatt]]]]]]].
+  rewrite !in_app_iff in Hc. destruct Hc as [Hc|[Hc|[Hc|[Hc|Hc]]]].
+  - (* the seven fixed slots *)
+    unfold p_hd in Hc. simpl in Hc.
+    destruct Hc as [<-|[<-|[<-|[<-|[<-|[<-|[<-|[]]]]]]]].
+    + unfold p_root in Hp. simpl in Hp. unfold alist_loc_of in Hp. rewrite Hal in Hp.
+      rewrite dict_loc_fresh in Hp by auto.
+      destruct Hp as [<-|[<-|Hp]]; try lia.
+      rewrite !in_app_iff in Hp. destruct Hp as [Hp|[Hp|[Hp|Hp]]].
+      * unfold blist_loc_of in Hp. destruct (r_bonds r) as [b|]; [|destruct Hp].
+        destruct Hb as [Hbl _]. rewrite Hbl in Hp. simpl in Hp. destruct Hp as [<-|[]]. lia.
+      * apply arr_loc_fresh in Hp; auto. lia.
+      * apply arr_loc_fresh in Hp; auto. lia.
+      * apply arr_loc_fresh in Hp; auto. lia.
+    + unfold alist_cell_of in Hp. rewrite Hal in Hp. simpl in Hp. unfold new_atoms_of in Hp. rewrite Hat in Hp.
+      apply in_new_atoms in Hp. unfold p_n. lia.
+    + unfold blist_cell_of in Hp. destruct (r_bonds r) as [b|] eqn:Eb; [|destruct Hp].
+      destruct Hb as [Hbl [Hbo _]]. rewrite Hbl in Hp. simpl in Hp.
+      unfold new_bonds_of, brow_of in Hp. rewrite Eb, Hbo in Hp.
+      apply in_new_atoms in Hp. unfold p_m. lia.
+    + rewrite arr_cell_ptrs in Hp. destruct Hp.
+    + rewrite arr_cell_ptrs in Hp. destruct Hp.
+    + rewrite arr_cell_ptrs in Hp. destruct Hp.
+    + rewrite dict_cell_ptrs in Hp. destruct Hp.
+  - (* atom objects *)
+    unfold p_A, atom_cells in Hc. apply In_mapi in Hc. destruct Hc as [j [a [Hj [_ ->]]]].
+    rewrite Hat in Hp. destruct (get h a); simpl in Hp; try contradiction.
+    rewrite dict_loc_fresh in Hp by auto. destruct Hp as [<-|[]]. fold (p_n h P) in Hj. lia.
+  - unfold p_AD, adict_cells in Hc. apply In_mapi in Hc. destruct Hc as [j [a [Hj [_ ->]]]].
+    rewrite Hat in Hp. destruct (get h a); simpl in Hp; try contradiction.
+    rewrite dict_cell_ptrs in Hp. destruct Hp.
+  - (* bond objects *)
+    unfold p_Bc, bond_cells in Hc. apply In_mapi in Hc. destruct Hc as [j [b [Hj [Hnb ->]]]].
+    unfold brow_of in *. destruct (r_bonds r) as [br|] eqn:Eb; [|simpl in Hp; contradiction].
+    destruct Hb as [_ [Hbo [Hba Hbe]]]. rewrite Hbo in Hp.
+    destruct (get h b) as [| | | |a1 a2 pay dd par| |] eqn:Eg; simpl in Hp; try contradiction.
+    destruct (ends_found_In h _ _ b a1 a2 pay dd par (Hends Hbe) (nth_error_In _ _ Hnb) Eg) as [i1 [i2 [H1 H2]]].
+    rewrite Hbe in Hp. unfold new_atoms_of in Hp. rewrite Hat in Hp.
+    rewrite (remap_copied _ _ _ _ H1), (remap_copied _ _ _ _ H2) in Hp.
+    rewrite dict_loc_fresh in Hp by auto.
+    apply index_of_lt in H1. apply index_of_lt in H2. fold (p_n h P) in H1, H2. fold (p_m h P) in Hj.
+    destruct Hp as [<-|[<-|[<-|[]]]]; lia.
+  - unfold p_BD, bdict_cells in Hc. apply In_mapi in Hc. destruct Hc as [j [b [Hj [_ ->]]]].
+    destruct (b_obj (brow_of r)); simpl in Hp; try contradiction.
+    destruct (get h b); simpl in Hp; try contradiction.
+    rewrite dict_cell_ptrs in Hp. destruct Hp.
+Qed.
+
+(* Independence: the copy lives in the fresh region, the source's cells are untouched and closed *)
+Theorem copy_independent : forall r g d h o h' o',
+  heap_wf h -> row_indep r = true -> copy_row r g d h o = Some (h', o') ->
+  o' = length h /\ length h < length h'
+  /\ (forall l, l < length h -> get h' l = get h l)
+  /\ closed h' (fun l => length h <= l < length h')
+  /\ closed h' (fun l => l < length h).
+Proof.
+  intros r g d h o h' o' Hwf Hind Hc.
+  destruct (copy_row_inv _ _ _ _ _ _ _ Hc) as [P [Hget [Ho' [Hends Hh']]]].
+  destruct (p_lengths r g d h P) as [L1 [L2 [L3 [L4 L5]]]].
+  assert (Hlen : length h' = length h + (7 + p_n h P + p_n h P + p_m h P + p_m h P)).
+  { rewrite Hh'. rewrite !app_length. rewrite L1, L2, L3, L4, L5. lia. }
+  split; [exact Ho'|]. split; [lia|]. split.
+  { intros l Hl. rewrite Hh'. apply get_app_old. exact Hl. }
+  split.
+  - intros l [Hl1 Hl2]. split; [exact Hl2|]. intros p Hp.
+    replace l with (length h + (l - length h)) in Hp by lia. rewrite Hh' in Hp. rewrite get_app_new in Hp.
+    assert (Hin : In (nth (l - length h) (p_hd r g d h P ++ p_A r h P ++ p_AD r h P ++ p_Bc r h P ++ p_BD r h P) CFree)
+                     (p_hd r g d h P ++ p_A r h P ++ p_AD r h P ++ p_Bc r h P ++ p_BD r h P)).
+    { apply nth_In. rewrite !app_length. rewrite L1, L2, L3, L4, L5. lia. }
+    pose proof (news_fresh r g d h P Hind Hends _ Hin p Hp) as Hb. lia.
+  - intros l Hl. split; [lia|]. intros p Hp. rewrite Hh' in Hp. rewrite get_app_old in Hp by exact Hl.
+    apply (Hwf l Hl p Hp).
+Qed.
+
+Corollary copy_separated : forall r g d h o h' o',
+  heap_wf h -> row_indep r = true -> copy_row r g d h o = Some (h', o') -> separated h' o' o.
+Proof.
+  intros r g d h o h' o' Hwf Hind Hc.
+  destruct (copy_independent _ _ _ _ _ _ _ Hwf Hind Hc) as [Ho' [Hlt [Hold [HA HB]]]].
+  exists (fun l => length h <= l < length h'), (fun l => l < length h).
+  split; [exact HA|]. split; [exact HB|]. split; [intros l H1 H2; lia|]. split; [lia|].
+  destruct (Nat.lt_ge_cases o (length h)) as [Hlt'|Hge]; auto.
+  unfold copy_row in Hc. rewrite (get_oob h o Hge) in Hc. discriminate.
+Qed.
+
+Corollary copy_reach_disjoint : forall r g d h o h' o',
+  heap_wf h -> row_indep r = true -> copy_row r g d h o = Some (h', o') ->
+  forall l, In l (reach h' o') -> ~ In l (reach h' o).
+Proof.
+  intros r g d h o h' o' Hwf Hind Hc l H1 H2.
+  destruct (copy_separated _ _ _ _ _ _ _ Hwf Hind Hc) as [SA [SB [HA [HB [Hd [Ha Hb]]]]]].
+  apply (Hd l).
+  - eapply reach_sub_closed; eauto.
+  - eapply reach_sub_closed; eauto.
+Qed.
+
+(* ------------------------------------------------------------------ copy_row: faithfulness *)
+Definition selfP_a (a : aobs) : Prop := match a with Some (_, _, q) => q = QSelf | None => True end.
+Definition selfP_b (b : bobs) : Prop := match b with Some (_, _, _, _, q) => q = QSelf | None => True end.
+
+Lemma arr_copied : forall h h' src f g,
+  get h' f = arr_cell h ACopied src g -> oarr h' (arr_loc ACopied src f) = oarr h src.
+Proof.
+  intros h h' [l|] f g H; simpl in *; auto.
+  unfold arr_of. rewrite H. unfold arr_of. destruct (get h l); auto.
+Qed.
+
+Lemma dict_copied : forall h h' src f,
+  get h' f = dict_cell h Copied src -> dict_of h' f = dict_of h src.
+Proof.
+  intros h h' src f H. unfold dict_of at 1. rewrite H. simpl. destruct (dict_of h src); auto.
+Qed.
+
+Lemma atoms_ok_inv : forall r, atoms_ok r = true ->
+  r_alist r = Copied /\ r_atom r = Copied /\ r_aattrib r = Copied /\ r_aparent r = RSelf.
+Proof.
+  intros r H. unfold atoms_ok in H. repeat (apply andb_true_iff in H; destruct H as [H ?]).
+  repeat split; auto using st_copied_eq. destruct (r_aparent r); simpl in *; congruence.
+Qed.
+
+Lemma bonds_ok_inv : forall r, bonds_ok r = true ->
+  exists b, r_bonds r = Some b /\ b_list b = Copied /\ b_obj b = Copied /\ b_attrib b = Copied
+            /\ b_parent b = RSelf /\ b_ends b = ERemap.
+Proof.
+  intros r H. unfold bonds_ok in H. destruct (r_bonds r) as [b|]; [|discriminate]. exists b.
+  unfold brow_ok in H. repeat (apply andb_true_iff in H; destruct H as [H ?]).
+  repeat split; auto using st_copied_eq.
+  - destruct (b_parent b); simpl in *; congruence.
+  - destruct (b_ends b); congruence.
+Qed.
+
+Theorem copy_faithful : forall r g d h o h' o',
+  copy_row r g d h o = Some (h', o') ->
+  exists ob ob', obs h o = Some ob /\ obs h' o' = Some ob' /\ o_cls ob' = d
+  /\ (r_scal r = true -> o_scal ob' = o_scal ob)
+  /\ (atoms_ok r = true ->
+        map strip_a (o_atoms ob') = map strip_a (o_atoms ob) /\ Forall selfP_a (o_atoms ob'))
+  /\ (atoms_ok r = true -> bonds_ok r = true -> o_bonds ob <> None ->
+        option_map (map strip_b) (o_bonds ob') = option_map (map strip_b) (o_bonds ob)
+        /\ forall bs, o_bonds ob' = Some bs -> Forall selfP_b bs)
+  /\ (r_coords r = ACopied -> o_coords ob' = o_coords ob)
+  /\ (r_charges r = ACopied -> o_charges ob' = o_charges ob)
+  /\ (r_weights r = ACopied -> o_weights ob' = o_weights ob)
+  /\ (r_attrib r = Copied -> o_attrib ob' = o_attrib ob).
+Proof.
+  intros r g d h o h' o' Hc.
+  destruct (copy_row_inv _ _ _ _ _ _ _ Hc) as [P [Hget [Ho' [Hends Hh']]]].
+  destruct (p_lengths r g d h P) as [L1 [L2 [L3 [L4 L5]]]].
+  destruct (get_segs h _ _ _ _ _ _ _ L1 L2 L3 L4 L5) as [G0 [GA [GAD [GB GBD]]]].
+  rewrite <- Hh' in G0, GA, GAD, GB, GBD.
+  assert (Groot : get h' (length h) = p_root r g d h P).
+  { specialize (G0 0 ltac:(lia)). rewrite Nat.add_0_r in G0. exact G0. }
+  subst o'. unfold obs. rewrite Hget, Groot. unfold p_root.
+  eexists. eexists. split; [reflexivity|]. split; [reflexivity|]. simpl.
+  split; [reflexivity|].
+  split; [intros ->; reflexivity|].
+  split.
+  { (* atoms *)
+    intros Hok. destruct (atoms_ok_inv r Hok) as [Hal [Hat [Haa Hap]]].
+    unfold alist_loc_of. rewrite Hal.
+    assert (Hitems : items_of h' (length h + 1) = mapi_from (fun j _ => length h + 7 + j) 0 (p_atoms h P)).
+    { unfold items_of. rewrite (G0 1 ltac:(lia)). simpl. unfold alist_cell_of, new_atoms_of. rewrite Hal, Hat. reflexivity. }
+    rewrite Hitems.
+    assert (Hatom : forall j a, nth_error (p_atoms h P) j = Some a ->
+              atom_obs h' (length h) (length h + 7 + j) =
+              match get h a with CAtom p dd par => Some (p, dict_of h dd, QSelf) | _ => None end).
+    { intros j a Hn. assert (Hj : j < p_n h P) by (apply nth_error_Some; unfold p_atoms in *; congruence).
+      unfold atom_obs. rewrite (GA j Hj). unfold p_A, atom_cells.
+      rewrite nth_mapi with (d' := 0) by exact Hj. rewrite (nth_error_nth _ _ 0 Hn). rewrite Hat. simpl.
+      destruct (get h a) as [| | |p dd par| | |] eqn:Ea; auto.
+      rewrite Haa, Hap. simpl. rewrite Nat.eqb_refl.
+      rewrite (dict_copied h h' dd).
+      - reflexivity.
+      - rewrite (GAD j Hj). unfold p_AD, adict_cells. rewrite nth_mapi with (d' := 0) by exact Hj.
+        rewrite (nth_error_nth _ _ 0 Hn). rewrite Hat, Ea, Haa. reflexivity. }
+    split.
+    - rewrite !map_map. apply map_mapi. intros j a Hn. simpl. rewrite (Hatom j a Hn).
+      unfold atom_obs. destruct (get h a); auto.
+    - apply Forall_forall. intros x Hx. apply in_map_iff in Hx. destruct Hx as [l [<- Hl]].
+      apply In_mapi in Hl. destruct Hl as [j [a [Hj [Hn ->]]]]. simpl. rewrite (Hatom j a Hn).
+      destruct (get h a); simpl; auto. }
+  split.
+  { (* bonds *)
+    intros Hok Hbok Hsome. destruct (atoms_ok_inv r Hok) as [Hal [Hat [Haa Hap]]].
+    destruct (bonds_ok_inv r Hbok) as [br [Hbr [Hbl [Hbo [Hba [Hbp Hbe]]]]]].
+    destruct (p_bl P) as [l|] eqn:Ebl; [|exfalso; apply Hsome; reflexivity]. clear Hsome.
+    unfold alist_loc_of, blist_loc_of. rewrite Hal, Hbr, Hbl. simpl.
+    assert (Hbrow : brow_of r = br) by (unfold brow_of; rewrite Hbr; reflexivity).
+    assert (Hitems : items_of h' (length h + 1) = mapi_from (fun j _ => length h + 7 + j) 0 (p_atoms h P)).
+    { unfold items_of. rewrite (G0 1 ltac:(lia)). simpl. unfold alist_cell_of, new_atoms_of. rewrite Hal, Hat. reflexivity. }
+    assert (Hbitems : items_of h' (length h + 2)
+                      = mapi_from (fun j _ => length h + 7 + p_n h P + p_n h P + j) 0 (p_bonds h P)).
+    { unfold items_of. rewrite (G0 2 ltac:(lia)). simpl. unfold blist_cell_of, new_bonds_of.
+      rewrite Hbr, Hbl, Hbrow, Hbo. reflexivity. }
+    rewrite Hitems, Hbitems.
+    assert (Hpb : p_bonds h P = items_of h l) by (unfold p_bonds; rewrite Ebl; reflexivity).
+    assert (Hbond : forall j b, nth_error (p_bonds h P) j = Some b ->
+              bond_obs h' (length h) (mapi_from (fun j _ => length h + 7 + j) 0 (p_atoms h P))
+                       (length h + 7 + p_n h P + p_n h P + j) =
+              match get h b with
+              | CBond a1 a2 p dd par => Some (index_of a1 (p_atoms h P), index_of a2 (p_atoms h P), p, dict_of h dd, QSelf)
+              | _ => None end).
+    { intros j b Hn. assert (Hj : j < p_m h P) by (apply nth_error_Some; unfold p_m; congruence).
+      unfold bond_obs. rewrite (GB j Hj). unfold p_Bc, bond_cells.
+      rewrite nth_mapi with (d' := 0) by exact Hj. rewrite (nth_error_nth _ _ 0 Hn). rewrite Hbrow, Hbo. simpl.
+      destruct (get h b) as [| | | |a1 a2 p dd par| |] eqn:Eb; auto.
+      rewrite Hbrow in Hends.
+      destruct (ends_found_In h _ _ b a1 a2 p dd par (Hends Hbe) (nth_error_In _ _ Hn) Eb) as [i1 [i2 [H1 H2]]].
+      rewrite Hbe, Hba, Hbp. unfold new_atoms_of. rewrite Hat.
+      rewrite (remap_copied _ _ _ _ H1), (remap_copied _ _ _ _ H2). simpl.
+      rewrite Nat.eqb_refl.
+      replace (length h + 7 + i1) with (length h + 7 + (0 + i1)) by lia.
+      replace (length h + 7 + i2) with (length h + 7 + (0 + i2)) by lia.
+      rewrite !index_of_offset by (eapply index_of_lt; eauto).
+      rewrite H1, H2.
+      rewrite (dict_copied h h' dd).
+      - reflexivity.
+      - rewrite (GBD j Hj). unfold p_BD, bdict_cells. rewrite nth_mapi with (d' := 0) by exact Hj.
+        rewrite (nth_error_nth _ _ 0 Hn). rewrite Hbrow, Hbo, Eb, Hba. reflexivity. }
+    split.
+    - f_equal. rewrite !map_map. rewrite <- Hpb. apply map_mapi. intros j b Hn. simpl. rewrite (Hbond j b Hn).
+      unfold bond_obs. destruct (get h b); auto.
+    - intros bs Hbs. inversion Hbs; subst bs. apply Forall_forall. intros x Hx.
+      apply in_map_iff in Hx. destruct Hx as [y [<- Hy]].
+      apply In_mapi in Hy. destruct Hy as [j [b [Hj [Hn ->]]]]. simpl. rewrite (Hbond j b Hn).
+      destruct (get h b); simpl; auto. }
+  split.
+  { intros Hr. rewrite Hr. apply arr_copied with (g := g_coords g). rewrite (G0 3 ltac:(lia)). simpl. rewrite Hr. reflexivity. }
+  split.
+  { intros Hr. rewrite Hr. apply arr_copied with (g := g_charges g). rewrite (G0 4 ltac:(lia)). simpl. rewrite Hr. reflexivity. }
+  split.
+  { intros Hr. rewrite Hr. apply arr_copied with (g := g_weights g). rewrite (G0 5 ltac:(lia)). simpl. rewrite Hr. reflexivity. }
+  intros Hr. rewrite Hr. simpl. apply dict_copied. rewrite (G0 6 ltac:(lia)). simpl. rewrite Hr. reflexivity.
+Qed.
+
+(* ------------------------------------------------------------------ a row that meets the specification *)
+Definition faithful_on (nd : need) (ob ob' : obsr) : Prop :=
+  map strip_a (o_atoms ob') = map strip_a (o_atoms ob) /\ Forall selfP_a (o_atoms ob')
+  /\ (n_bonds nd = true -> o_bonds ob <> None ->
+        option_map (map strip_b) (o_bonds ob') = option_map (map strip_b) (o_bonds ob)
+        /\ forall bs, o_bonds ob' = Some bs -> Forall selfP_b bs)
+  /\ (n_coords nd = true -> o_coords ob' = o_coords ob)
+  /\ (n_charges nd = true -> o_charges ob' = o_charges ob)
+  /\ (n_weights nd = true -> o_weights ob' = o_weights ob)
+  /\ (n_scal nd = true -> o_scal ob' = o_scal ob)
+  /\ (n_attrib nd = true -> o_attrib ob' = o_attrib ob).
+
+Lemma implb_true : forall a b, negb a || b = true -> a = true -> b = true.
+Proof. intros [|] [|]; simpl; auto. Qed.
+Lemma ast_copied_eq : forall s, ast_copied s = true -> s = ACopied.
+Proof. destruct s; simpl; congruence. Qed.
+
+Lemma old_closed : forall h x, heap_wf h -> closed (h ++ x) (fun l => l < length h).
+Proof.
+  intros h x Hwf l Hl. split; [rewrite app_length; lia|]. rewrite get_app_old by exact Hl. apply (Hwf l Hl).
+Qed.
+
+Theorem copy_row_sound : forall nd r g d h o h' o',
+  heap_wf h -> row_ok nd r = true -> copy_row r g d h o = Some (h', o') ->
+  separated h' o' o
+  /\ (forall l, In l (reach h' o') -> ~ In l (reach h' o))
+  /\ exists ob ob', obs h o = Some ob /\ obs h' o = Some ob /\ obs h' o' = Some ob'
+                    /\ o_cls ob' = d /\ faithful_on nd ob ob'.
+Proof.
+  intros nd r g d h o h' o' Hwf Hok Hc.
+  unfold row_ok in Hok. apply andb_true_iff in Hok. destruct Hok as [Hind Hf].
+  split; [eapply copy_separated; eauto|]. split; [eapply copy_reach_disjoint; eauto|].
+  destruct (copy_faithful _ _ _ _ _ _ _ Hc) as [ob [ob' [Ho [Ho' [Hcls [Hsc [Hat [Hbo [Hco [Hch [Hwe Hatt]]]]]]]]]]].
+  exists ob, ob'. split; [exact Ho|]. split.
+  { rewrite <- Ho.
+    destruct (copy_independent _ _ _ _ _ _ _ Hwf Hind Hc) as [_ [_ [Hold [_ HB]]]].
+    apply (obs_local h h' (fun l => l < length h) o).
+    - intros l Hl. split; auto. apply (Hwf l Hl).
+    - destruct (Nat.lt_ge_cases o (length h)) as [Hlt|Hge]; auto.
+      unfold obs in Ho. rewrite (get_oob h o Hge) in Ho. discriminate.
+    - intros l Hl. apply Hold. exact Hl. }
+  split; [exact Ho'|]. split; [exact Hcls|].
+  unfold row_faithful in Hf.
+  apply andb_true_iff in Hf; destruct Hf as [Hf _].
+  apply andb_true_iff in Hf; destruct Hf as [Hf H6].
+  apply andb_true_iff in Hf; destruct Hf as [Hf H5].
+  apply andb_true_iff in Hf; destruct Hf as [Hf H4].
+  apply andb_true_iff in Hf; destruct Hf as [Hf H3].
+  apply andb_true_iff in Hf; destruct Hf as [Hf H2].
+  apply andb_true_iff in Hf; destruct Hf as [Hf H1].
+  pose proof (implb_true _ _ H1) as I1; pose proof (implb_true _ _ H2) as I2; pose proof (implb_true _ _ H3) as I3;
+  pose proof (implb_true _ _ H4) as I4; pose proof (implb_true _ _ H5) as I5; pose proof (implb_true _ _ H6) as I6.
+  destruct (Hat Hf) as [Ha1 Ha2].
+  unfold faithful_on. split; [exact Ha1|]. split; [exact Ha2|].
+  split; [intros Hn Hs; apply Hbo; auto|].
+  split; [intros Hn; apply Hco; apply ast_copied_eq; auto|].
+  split; [intros Hn; apply Hch; apply ast_copied_eq; auto|].
+  split; [intros Hn; apply Hwe; apply ast_copied_eq; auto|].
+  split; [intros Hn; apply Hsc; auto|].
+  intros Hn. apply Hatt. apply st_copied_eq. auto.
+Qed.
+
+(* ------------------------------------------------------------------ from the regenerated table to the theorems *)
+Lemma kls_eqb_eq : forall a b, kls_eqb a b = true -> a = b.
+Proof. intros a b H. destruct a, b; try reflexivity; discriminate H. Qed.
+
+Lemma route_eqb_eq : forall a b, route_eqb a b = true -> a = b.
+Proof.
+  intros a b H. destruct a, b; simpl in H; try discriminate; try reflexivity.
+  - apply kls_eqb_eq in H. now subst.
+  - apply andb_true_iff in H. destruct H as [H1 H2]. apply kls_eqb_eq in H1. apply Nat.eqb_eq in H2. now subst.
+  - apply kls_eqb_eq in H. now subst.
+Qed.
+
+Lemma lookup_row_In : forall t k r x, lookup_row t k r = Some x -> In (k, r, x) t.
+Proof.
+  intros t k r x H. unfold lookup_row in H.
+  match type of H with match ?F with _ => _ end = _ => destruct F as [[[k' r'] x']|] eqn:E end; [|discriminate].
+  inversion H; subst x'.
+  apply find_some in E. destruct E as [Hin He]. apply andb_true_iff in He. destruct He as [H1 H2].
+  apply kls_eqb_eq in H1. apply route_eqb_eq in H2. now subst.
+Qed.
+
+Theorem table_routes_sound : forall known t, table_ok known t = true ->
+  forall k r x, lookup_row t k r = Some x -> lone k = false ->
+  forall g h o h' o', heap_wf h -> copy_row x g (kls_code (dst_of k r)) h o = Some (h', o') ->
+  separated h' o' o
+  /\ (forall l, In l (reach h' o') -> ~ In l (reach h' o))
+  /\ exists ob ob', obs h o = Some ob /\ obs h' o = Some ob /\ obs h' o' = Some ob'
+                    /\ o_cls ob' = kls_code (dst_of k r) /\ faithful_on (need_known known k r) ob ob'.
+Proof.
+  intros known t Ht k r x Hl Hlone g h o h' o' Hwf Hc.
+  unfold table_ok in Ht. apply andb_true_iff in Ht. destruct Ht as [_ Ht]. rewrite forallb_forall in Ht.
+  specialize (Ht _ (lookup_row_In _ _ _ _ Hl)). unfold entry_ok in Ht. rewrite Hlone in Ht.
+  eapply copy_row_sound; eauto.
+Qed.
+
+Theorem table_routes_present : forall known t, table_ok known t = true ->
+  forall k r, In (k, r) required -> exists x, lookup_row t k r = Some x.
+Proof.
+  intros known t Ht k r Hin. unfold table_ok in Ht. apply andb_true_iff in Ht. destruct Ht as [Ht _].
+  unfold table_complete in Ht. rewrite forallb_forall in Ht. specialize (Ht _ Hin). simpl in Ht.
+  destruct (lookup_row t k r) as [x|]; [eauto|discriminate].
+Qed.
+
+(* a copy by a sound route followed by ANY interleaved history of mutations through the copy (side A)
+   and through the source (side B): no step changes what the other side observes *)
+Theorem copy_then_history : forall known t, table_ok known t = true ->
+  forall k r x, lookup_row t k r = Some x -> lone k = false ->
+  forall g h o h' o', heap_wf h -> copy_row x g (kls_code (dst_of k r)) h o = Some (h', o') ->
+  forall hist, hist_okb h' o' o hist = true ->
+  forall pre s ps post, hist = pre ++ (s, ps) :: post ->
+    obs (apply_prims (run_hist h' pre) ps) (pick (other_side s) o' o)
+    = obs (run_hist h' pre) (pick (other_side s) o' o).
+Proof.
+  intros known t Ht k r x Hl Hlone g h o h' o' Hwf Hc hist Hok pre s ps post Heq.
+  destruct (table_routes_sound known t Ht k r x Hl Hlone g h o h' o' Hwf Hc) as [Hsep _].
+  eapply history_frame; eauto.
+Qed.
+
+(* ------------------------------------------------------------------ the menu of elementary edits obeys the footprint discipline *)
+Lemma reachN_mono : forall n h l x, In x (reachN n h l) -> In x (reachN (S n) h l).
+Proof.
+  induction n as [|n IH]; intros h l x H.
+  - simpl in H. destruct H as [<-|[]]. simpl. auto.
+  - simpl in H. destruct H as [<-|H]; [simpl; auto|].
+    apply in_flat_map in H. destruct H as [p [Hp Hx]].
+    change (In x (l :: flat_map (reachN (S n) h) (ptrs (get h l)))). right.
+    apply in_flat_map. exists p. split; auto.
+Qed.
+
+Lemma reachN_step : forall n h l x p, In x (reachN n h l) -> In p (ptrs (get h x)) -> In p (reachN (S n) h l).
+Proof.
+  induction n as [|n IH]; intros h l x p Hx Hp.
+  - simpl in Hx. destruct Hx as [<-|[]]. simpl. right. apply in_flat_map. exists p. split; simpl; auto.
+  - simpl in Hx. destruct Hx as [Heq|Hx].
+    + subst x. change (In p (l :: flat_map (reachN (S n) h) (ptrs (get h l)))). right.
+      apply in_flat_map. exists p. split; auto. apply reachN_head.
+    + apply in_flat_map in Hx. destruct Hx as [q [Hq Hx]].
+      change (In p (l :: flat_map (reachN (S n) h) (ptrs (get h l)))). right.
+      apply in_flat_map. exists q. split; auto. eapply IH; eauto.
+Qed.
+
+Lemma in_items_ptrs : forall h l a, In a (items_of h l) -> In a (ptrs (get h l)).
+Proof. intros h l a H. unfold items_of in H. destruct (get h l); simpl in *; try contradiction. exact H. Qed.
+
+Lemma reach_root : forall h o, In o (reach h o).
+Proof. intros. apply reachN_head. Qed.
+Lemma reach1 : forall h o p, In p (ptrs (get h o)) -> In p (reach h o).
+Proof.
+  intros h o p H. unfold reach. do 3 apply reachN_mono. eapply (reachN_step 0); eauto. simpl. auto.
+Qed.
+Lemma reach2 : forall h o p q, In p (ptrs (get h o)) -> In q (ptrs (get h p)) -> In q (reach h o).
+Proof.
+  intros h o p q H1 H2. unfold reach. do 2 apply reachN_mono. eapply (reachN_step 1); eauto.
+  eapply (reachN_step 0); eauto. simpl. auto.
+Qed.
+Lemma reach3 : forall h o p q s, In p (ptrs (get h o)) -> In q (ptrs (get h p)) -> In s (ptrs (get h q)) -> In s (reach h o).
+Proof.
+  intros h o p q s H1 H2 H3. unfold reach. apply reachN_mono. eapply (reachN_step 2); eauto.
+  eapply (reachN_step 1); eauto. eapply (reachN_step 0); eauto. simpl. auto.
+Qed.
+
+Lemma write1_ok : forall region h l c,
+  In l region -> (forall p, In p (ptrs c) -> In p region) -> prims_okb region h [PWrite l c] = true.
+Proof.
+  intros region h l c Hl Hc. simpl. rewrite andb_true_r. apply andb_true_iff. split.
+  - apply mem_In. exact Hl.
+  - apply forallb_forall. intros p Hp. apply mem_In. auto.
+Qed.
+
+Theorem compile_op_ok : forall h o x ps, compile_op h o x = Some ps -> prims_okb (reach h o) h ps = true.
+Proof.
+  intros h o x ps H. unfold compile_op in H.
+  destruct (get h o) as [| | | | | |cls sc al bl co ch we at_] eqn:Eo; try discriminate.
+  assert (Pal : In al (ptrs (get h o))) by (rewrite Eo; simpl; auto).
+  assert (Pat : In at_ (ptrs (get h o))) by (rewrite Eo; simpl; auto).
+  assert (Pbl : forall l, bl = Some l -> In l (ptrs (get h o))).
+  { intros l ->. rewrite Eo. simpl. auto. }
+  assert (Pco : forall l, co = Some l -> In l (ptrs (get h o))).
+  { intros l ->. rewrite Eo. simpl. right; right. rewrite !in_app_iff. simpl. auto. }
+  assert (Pch : forall l, ch = Some l -> In l (ptrs (get h o))).
+  { intros l ->. rewrite Eo. simpl. right; right. rewrite !in_app_iff. simpl. auto. }
+  assert (Pwe : forall l, we = Some l -> In l (ptrs (get h o))).
+  { intros l ->. rewrite Eo. simpl. right; right. rewrite !in_app_iff. simpl. auto. }
+  destruct x as [j p|j p|i v|i v|i v|kv|j kv|j kv|s].
+  - destruct (nth_error (items_of h al) j) as [a|] eqn:Ea; [|discriminate].
+    destruct (get h a) as [| | |p0 d par| | |] eqn:Eg; try discriminate. inversion H; subst ps.
+    assert (Pa : In a (ptrs (get h al))) by (apply in_items_ptrs; eapply nth_error_In; eauto).
+    apply write1_ok; [exact (reach2 h o al a Pal Pa)|].
+    simpl. intros q [<-|[]]. apply (reach3 h o al a d Pal Pa). rewrite Eg. simpl. auto.
+  - destruct bl as [l|]; [|discriminate].
+    destruct (nth_error (items_of h l) j) as [b|] eqn:Eb; [|discriminate].
+    destruct (get h b) as [| | | |a1 a2 p0 d par| |] eqn:Eg; try discriminate. inversion H; subst ps.
+    assert (Pb : In b (ptrs (get h l))) by (apply in_items_ptrs; eapply nth_error_In; eauto).
+    apply write1_ok; [exact (reach2 h o l b (Pbl l eq_refl) Pb)|].
+    simpl. intros q Hq. apply (reach3 h o l b q (Pbl l eq_refl) Pb). rewrite Eg. simpl. tauto.
+  - destruct co as [l|]; [|discriminate]. destruct (get h l) eqn:Eg; try discriminate. inversion H; subst ps.
+    apply write1_ok; [apply reach1; auto|]. simpl. tauto.
+  - destruct ch as [l|]; [|discriminate]. destruct (get h l) eqn:Eg; try discriminate. inversion H; subst ps.
+    apply write1_ok; [apply reach1; auto|]. simpl. tauto.
+  - destruct we as [l|]; [|discriminate]. destruct (get h l) eqn:Eg; try discriminate. inversion H; subst ps.
+    apply write1_ok; [apply reach1; auto|]. simpl. tauto.
+  - destruct (get h at_) eqn:Eg; try discriminate. inversion H; subst ps.
+    apply write1_ok; [apply reach1; auto|]. simpl. tauto.
+  - destruct (nth_error (items_of h al) j) as [a|] eqn:Ea; [|discriminate].
+    destruct (get h a) as [| | |p0 d par| | |] eqn:Eg; try discriminate.
+    destruct (get h d) eqn:Ed; try discriminate. inversion H; subst ps.
+    assert (Pa : In a (ptrs (get h al))) by (apply in_items_ptrs; eapply nth_error_In; eauto).
+    apply write1_ok; [apply (reach3 h o al a d Pal Pa); rewrite Eg; simpl; auto|]. simpl. tauto.
+  - destruct bl as [l|]; [|discriminate].
+    destruct (nth_error (items_of h l) j) as [b|] eqn:Eb; [|discriminate].
+    destruct (get h b) as [| | | |a1 a2 p0 d par| |] eqn:Eg; try discriminate.
+    destruct (get h d) eqn:Ed; try discriminate. inversion H; subst ps.
+    assert (Pb : In b (ptrs (get h l))) by (apply in_items_ptrs; eapply nth_error_In; eauto).
+    apply write1_ok; [apply (reach3 h o l b d (Pbl l eq_refl) Pb); rewrite Eg; simpl; auto|]. simpl. tauto.
+  - inversion H; subst ps. apply write1_ok; [apply reach_root|].
+    intros q Hq. apply reach1. rewrite Eo. exact Hq.
+Qed.
